@@ -538,7 +538,7 @@ func runDirectChannelInterleavings() (string, []explore.Violation) {
 func init() {
 	explore.Register(&explore.CheckDef{
 		ID: "C20", Level: "exploration",
-		Rule: "pubsubcoreapi over a scripted PubSub API whose poll loop is stepped one membership snapshot at a time: every sequence of <= 3 (quick) / <= 4 (thorough) snapshots over 3 remote peers, each snapshot a duplicate-free set in every list order (16 ordered lists): joins and leaves reported must be exactly the set differences of consecutive snapshots, once each, and Peers() the last snapshot; every message sequence of length <= 3 over sender {self, p1, p2} x payload {empty, 1 byte, 64 KiB} must be delivered as its non-self subsequence, byte-identical and in order (topic adapter and one-on-one channel monitor, the latter attributed to the channel's remote peer). oneonone: channel names symmetric, distinct and used for sending, for all 20 ordered pairs of 5 peer ids. directchannel over an in-memory host: 10 payload sizes from 0 to the frame limit +1 (exact bytes, exact sender, once; oversize refused and the next frame still delivered) and all 6 interleavings of two senders x two frames. pubsubraw is not covered (needs real libp2p pubsub with its own timers). Non-trivial = sequences in which membership changes / a self-sent message occurs.",
+		Rule: "pubsubcoreapi over a scripted PubSub API whose poll loop is stepped one membership snapshot at a time: every sequence of <= 3 (quick) / <= 4 (thorough) snapshots over 3 remote peers, each snapshot a duplicate-free set in every list order (16 ordered lists): joins and leaves reported must be exactly the set differences of consecutive snapshots, once each, and Peers() the last snapshot; every message sequence of length <= 3 over sender {self, p1, p2} x payload {empty, 1 byte, 64 KiB} must be delivered as its non-self subsequence, byte-identical and in order (topic adapter and one-on-one channel monitor, the latter attributed to the channel's remote peer). oneonone: channel names symmetric, distinct and used for sending, for all 20 ordered pairs of 5 peer ids. directchannel over an in-memory host: 10 payload sizes from 0 to the frame limit +1 (exact bytes, exact sender, once; oversize refused and the next frame still delivered) and all 6 interleavings of two senders x two frames. pubsubraw over three real in-memory libp2p hosts with gossipsub: every message sequence of length <= 2 over 3 senders x 2 sizes, receipt-based waiting (bounded input enumeration without schedule control; a delivery the library does not make in time ends the case as inconclusive, not as a violation). Non-trivial = sequences in which membership changes / a self-sent message occurs.",
 		Units: func(tier string) []explore.Unit {
 			u := explore.ChunkUnits("membership-"+tier, 16)
 			u = append(u, explore.ChunkUnits("topicmsgs", 4)...)
@@ -609,13 +609,14 @@ func init() {
 				cases = append(cases, explore.Case{ID: "oneonone channel names", Nontrivial: true, Run: runChannelIDs})
 				cases = append(cases, explore.Case{ID: "directchannel sizes", Nontrivial: true, Run: runDirectChannelSizes})
 				cases = append(cases, explore.Case{ID: "directchannel interleavings", Nontrivial: true, Run: runDirectChannelInterleavings})
+				cases = append(cases, explore.Case{ID: "pubsubraw over in-memory libp2p hosts", Nontrivial: true, Run: runPubSubRaw})
 			}
 			explore.RunCases(c, "C20", cases, i, n)
 		},
 		Assumptions: []string{
 			"the adapters are driven through scripted doubles of the IPFS PubSub API and of the libp2p host/stream; the poll loop is stepped by making each Peers() call wait for the next scripted snapshot",
 			"oneonone.Connect contains a fixed one-second wait; message sequences for it are therefore limited to length 2 and waited for by receipt, not by goroutine-status quiescence",
-			"pubsubraw (thin wrapper over go-libp2p-pubsub) is not covered",
+			"pubsubraw runs over real go-libp2p-pubsub between in-memory hosts: its internal timers are not owned, so that sub-check enumerates inputs only and waits by receipt",
 		},
 	})
 }
